@@ -52,7 +52,7 @@ BUILT = {
          "Every boundary instant in 10 pattern forms and 11 zone spellings, (d+t)-d and (d-t)+t for 26 whole-nanosecond durations, all ordered pairs of a core of instants, every chrono-tz zone and every +-HH:MM offset (HH,MM 00..99) as conversion target.",
          "chrono-tz zone data trusted for named-zone offsets; sub-minute LMT offsets skipped", "3/C14"),
  "C15": ("model_checking", "explicit-state exploration of all query histories up to a depth bound (and a de Bruijn sequence on one long-lived context) on the real Context against a one-register model, every transition executed on the implementation",
-         "All histories over a 16-query alphabet to depth 3 (thorough 4) with the flag on and off are replayed on freshly loaded real contexts; at every transition the reply must equal that of a pristine context (shared reference) with the model's register preset, ans must equal the register, and the database must be unchanged.",
+         "All histories over a 16-query alphabet to depth 3 (thorough 4) with the flag on (flag off: depth 2 / 4) are replayed on freshly loaded real contexts; at every transition the reply must equal that of a pristine context (shared reference) with the model's register preset, ans must equal the register, and the database must be unchanged.",
          "model register is fed from the pristine context's replies; full registry dumps compared at history ends", "3/C15"),
  "C16": ("exploration", "exhaustive enumeration of every substance x property x amounts (forward, inverse, wrong dimension, scaling) and of formulas over every element symbol against exact rational reference",
          "Every property of every substance for 5 amounts in both directions, scaling by k and 1/k, every element symbol with boundary counts, symbol pairs, compounds and near-miss strings.",
